@@ -8,7 +8,7 @@ from harness import core, tlc
 from harness.core import cps, uncps
 from . import codec_common as cc
 
-DIRS = ["system", "codec", "notedata", "beat", "convert", "grouping"]
+DIRS = ["system", "codec", "notedata", "beat", "convert", "grouping", "timing"]
 EDIT_OPS = {"getattr", "setattr", "delattr", "setkey", "delkey", "appendchart", "removechart", "swapcharts",
             "setchartitem", "delchartitem", "setchartfield", "setchartextra", "create"}
 SAVE_OPS = {"save", "reopen", "load"}
@@ -38,13 +38,105 @@ def chart_proj(c, fmt):
     return cc.proj_items(c)
 
 
-def session(rid, seed, tosm_bias=False):
+SMOOTH = {
+    "BPMS": ["0=160", "0=160,4=80", "0.000=80,\n2.000=320,\n6=40", "0=640,1=64,3.5=128", "0=40"],
+    "STOPS": ["", "1=0.5", "2=0.25,5=1", "0=0.125", "4.5=2,6=0.5"],
+    "DELAYS": ["", "3=0.5", "2=0.25", "1=1,5=0.125"],
+    "WARPS": ["", "4=2", "1=0.5,1.25=1", "2=1,3=1", "0=1", "2=0.021"],
+    "OFFSET": ["", "0", "0.5", "-0.25", "0.125", "1"],
+}
+TIMED_OPTS = {"fake": "TAP_TO_FAKE", "drop": "DROP_NOTE", "keep": "KEEP_NOTE"}
+
+
+def tick_notes(rng):
+    """note data on rows whose beats are multiples of 1/26880 beat (4 ... 192 rows per measure, also 20 / 28)"""
+    cols = rng.choice([1, 2, 4, 4, 6])
+    ms = []
+    for _ in range(rng.randint(1, 2)):
+        rows = rng.choice([4, 4, 8, 12, 16, 24, 48, 20, 28] if cols <= 2 else [4, 4, 8, 12, 16, 20])
+        ms.append("\n".join("".join(rng.choice("00000000000001124M3LF") for _ in range(cols)) for _ in range(rows)))
+    return "\n,\n".join(ms) + "\n"
+
+
+def timing_step(rng, sf, fmt, log):
+    """one step of a timing-minded user: timing properties on the simfile / a chart, the SSC version, timed notes"""
+    from simfile.notes import NoteData
+    from simfile.notes.timed import time_notes, UnhittableNotes
+    from simfile.timing import TimingData
+    from . import notedata_common as nc
+    q = rng.random()
+    if q < 0.25:
+        name = rng.choice(["BPMS", "BPMS", "STOPS", "DELAYS", "WARPS", "OFFSET"])
+        v = rng.choice(SMOOTH[name])
+        if name == "STOPS" and rng.random() < 0.5:
+            sf.stops = v                                  # attribute: FREEZES on an SM simfile that spells it so
+            log("setattr", sf, name=cps("STOPS"), v=cps(v))
+        else:
+            sf[name] = v
+            log("setkey", sf, k=cps(name), v=cps(v))
+    elif q < 0.33 and fmt == "sm":
+        v = rng.choice(SMOOTH["STOPS"])
+        sf["FREEZES"] = v
+        log("setkey", sf, k=cps("FREEZES"), v=cps(v))
+    elif q < 0.40 and fmt == "ssc":
+        v = rng.choice(["0.69", "0.7", "0.70", "0.83", "0.5", "", "1", "0.07"])
+        if rng.random() < 0.5:
+            sf.version = v
+            log("setattr", sf, name=cps("VERSION"), v=cps(v))
+        else:
+            sf["VERSION"] = v
+            log("setkey", sf, k=cps("VERSION"), v=cps(v))
+    elif q < 0.60 and fmt == "ssc" and sf.charts:
+        j = rng.randrange(len(sf.charts))
+        name = rng.choice(["BPMS", "STOPS", "DELAYS", "WARPS", "OFFSET", "LABELS", "COMBOS", "SCROLLS"])
+        v = rng.choice(SMOOTH[name]) if name in SMOOTH else rng.choice(["", "0=1", "0.000=x"])
+        sf.charts[j][name] = v
+        log("setchartitem", sf, j=j + 1, name=cps(name), v=cps(v))
+    elif q < 0.75 and sf.charts:
+        j = rng.randrange(len(sf.charts))
+        t = tick_notes(rng)
+        c = sf.charts[j]
+        if fmt == "sm":
+            c.notes = t.strip()
+            log("setchartfield", sf, j=j + 1, f=6, v=cps(t.strip()))
+        else:
+            c.notes = t
+            log("setchartitem", sf, j=j + 1, name=cps("NOTES"), v=cps(t))
+    elif sf.charts:
+        j = rng.randrange(len(sf.charts))
+        c = sf.charts[j]
+        txt = c.notes
+        if txt is None or not isinstance(txt, str) or any(ch not in "0123456789AFKLM[],&\r\n \t" for ch in txt) or not txt.strip():
+            return
+        opt = rng.choice(["fake", "fake", "drop", "keep"])
+        try:
+            td = TimingData(sf, c)
+            if opt == "fake" and rng.random() < 0.5:
+                out = list(time_notes(NoteData(c), td))
+            else:
+                out = list(time_notes(NoteData(c), td, getattr(UnhittableNotes, TIMED_OPTS[opt])))
+        except Exception:  # noqa  (timing strings that do not parse, no BPM at all: not part of a session)
+            return
+        res = []
+        for tn in out:
+            d = nc.proj_note(tn.note)
+            x = float(tn.time) * 286720
+            if abs(x) > 2 ** 30:
+                return
+            d["tm"] = int(round(x))
+            res.append(d)
+        log("timenotes", sf, j=j + 1, opt=opt, res=res)
+
+
+def session(rid, seed, tosm_bias=False, timing_bias=False):
     import simfile
     from simfile.sm import SMSimfile, SMChart
     from simfile.ssc import SSCSimfile, SSCChart
     from simfile.convert import sm_to_ssc
     rng = random.Random(seed)
     fmt = rng.choice(["sm", "ssc"]) if not tosm_bias else "ssc"
+    if timing_bias:
+        fmt = rng.choice(["sm", "ssc", "ssc"])
     evs = []
 
     def log(op, sf, **kw):
@@ -52,7 +144,16 @@ def session(rid, seed, tosm_bias=False):
         e.update(kw)
         evs.append(e)
     r = rng.random()
-    if r < 0.4:
+    if timing_bias and r < 0.8:
+        # a small simfile with one or two charts and a first BPM
+        sf = (SMSimfile if fmt == "sm" else SSCSimfile).blank() if r < 0.4 else (SMSimfile if fmt == "sm" else SSCSimfile)(string="")
+        sf["BPMS"] = rng.choice(SMOOTH["BPMS"])
+        for _ in range(rng.randint(1, 2)):
+            c = (SMChart if fmt == "sm" else SSCChart).blank()
+            c.notes = tick_notes(rng).strip() if fmt == "sm" else tick_notes(rng)
+            sf.charts.append(c)
+        log("create", sf)
+    elif r < 0.4:
         sf = (SMSimfile if fmt == "sm" else SSCSimfile).blank()
         log("create", sf)
     elif r < 0.5:
@@ -82,6 +183,9 @@ def session(rid, seed, tosm_bias=False):
         r = rng.random()
         keys = list(sf.keys())
         try:
+            if timing_bias and rng.random() < 0.6:
+                timing_step(rng, sf, fmt, log)
+                continue
             if r < 0.10:
                 k = rng.choice(keys) if keys and rng.random() < 0.5 else rng.choice(["TITLE", "STOPS", "FREEZES", "BGCHANGES", "ANIMATIONS", "XKEY", "ARTIST"])
                 v = val(rng)
@@ -179,8 +283,8 @@ def session(rid, seed, tosm_bias=False):
                     txt = c.notes
                     if txt is None or not isinstance(txt, str) or any(ch not in "0123456789AFKLM[],\r\n \t" for ch in txt) or not txt.strip():
                         continue
-                    if "&" in txt:
-                        continue                      # (the counting rules of Grouping.tla are stated for single-player streams)
+                    if "&" in txt or len(txt) > 220 or sum(ch in "123456789AFKLM" for ch in txt) > 24:
+                        continue                      # (the counting rules of Grouping.tla are stated for single-player streams; TLC's work bounded)
                     from simfile.notes import count as cnt
                     try:
                         nd = NoteData(c)
@@ -288,8 +392,8 @@ def session(rid, seed, tosm_bias=False):
     return {"id": rid, "events": evs}
 
 
-def run_sessions(ctx, n, seed, tosm_bias=False):
-    jobs = [(i, seed * 8191 + i, tosm_bias) for i in range(n)]
+def run_sessions(ctx, n, seed, tosm_bias=False, timing_bias=False):
+    jobs = [(i, seed * 8191 + i, tosm_bias, timing_bias) for i in range(n)]
     sessions = core.pmap(_job, jobs, chunk=25)
     parts = core.chunks(sessions, 16)
     jobs2 = []
@@ -348,19 +452,21 @@ def judge(ctx, pid, sessions, verdict, ops, what):
 OP_OWNER = {"getattr": "C18", "setattr": "C18", "delattr": "C18", "setkey": "C18", "delkey": "C18", "appendchart": "C18",
             "removechart": "C18", "swapcharts": "C18", "setchartitem": "C18", "delchartitem": "C18", "setchartfield": "C18",
             "save": "C04", "reopen": "C04", "tossc": "C16", "tosm": "C17", "readnotes": "C07", "countnotes": "C09",
-            "readtiming": "C14"}
+            "readtiming": "C14", "timenotes": "C13"}
 MC_INVS = ["InvTypeOK", "InvSaveReopen", "InvViews", "InvConvertRoundTrip"]
 MC_ACTIONS = {"edit": ["setkey", "delkey", "getattr", "setattr", "delattr", "appendchart", "removechart",
                        "readnotes", "countnotes", "readtiming"],
               "save": ["setkey", "save", "reopen", "appendchart"],
               "tossc": ["setkey", "tossc", "save", "reopen"],
-              "tosm": ["setkey", "tosm", "save", "reopen"]}
+              "tosm": ["setkey", "tosm", "save", "reopen"],
+              "timing": ["setkey", "delkey", "setattr", "appendchart", "timenotes"]}
 
 
 def mc_cfg(fmt0, focus, items, charts, depth, emit):
+    invs = ["InvTypeOK", "InvTimesMonotone"] if focus == "timing" else MC_INVS
     return ("SPECIFICATION Spec\nCONSTANTS Fmt0 = \"%s\" Focus = \"%s\" MaxItems = %d MaxCharts = %d MaxDepth = %d DoEmit = %s\n"
             "VIEW View\nCONSTRAINT Bound\nACTION_CONSTRAINT Emit\n" % (fmt0, focus, items, charts, depth, "TRUE" if emit else "FALSE")
-            + "".join("INVARIANT %s\n" % i for i in MC_INVS))
+            + "".join("INVARIANT %s\n" % i for i in invs) + ("PROPERTY SourceIsolation\n" if focus == "timing" else ""))
 
 
 class _Mismatch(Exception):
@@ -495,6 +601,16 @@ def replay_path(fmt0, rec):
                 got = {"steps": cnt.count_steps(nd), "jumps": cnt.count_jumps(nd), "hands": cnt.count_hands(nd), "mines": cnt.count_mines(nd)}
                 if got != o["res"]:
                     raise _Mismatch(at, "counts %s, the specification says %s" % (json.dumps(got), json.dumps(o["res"])))
+            elif op == "timenotes":
+                from simfile.notes.timed import time_notes, UnhittableNotes
+                c = sf.charts[o["j"] - 1]
+                got = []
+                for tn in time_notes(NoteData(c), TimingData(sf, c), getattr(UnhittableNotes, TIMED_OPTS[o["opt"]])):
+                    d = nc.proj_note(tn.note)
+                    d["tm"] = int(round(float(tn.time) * 286720))
+                    got.append(d)
+                if got != o["res"]:
+                    raise _Mismatch(at, "time_notes(%s) yields %s, the specification says %s" % (o["opt"], json.dumps(got)[:400], json.dumps(o["res"])[:400]))
             elif op == "readtiming":
                 td = TimingData(sf)
                 got = [(Fraction(e.beat), Decimal(e.value)) for e in getattr(td, uncps(o["name"]).lower())]
@@ -527,7 +643,8 @@ def mc_system(ctx, pid, runs, ops=None):
     total = other = 0
     for (f, fo, it, ch, d), res in zip(runs, results):
         name = "MC_System %s/%s items<=%d charts<=%d depth<=%d" % (f, fo, it, ch, d)
-        if res.invariant_violated:
+        if res.invariant_violated or "is violated" in (res.error_text or ""):
+            res.invariant_violated = res.invariant_violated or "SourceIsolation"
             ctx.violation("%s:mc-system:%s" % (pid, res.invariant_violated),
                           "the specification's own system invariant %s fails in the bounded model %s" % (res.invariant_violated, name),
                           {"mode": "mc-system-invariant", "run": [f, fo, it, ch, d]})
@@ -570,9 +687,11 @@ MC_RUNS = {  # pid -> (quick runs, thorough runs): (fmt0, focus, MaxItems, MaxCh
     "C04": ([("sm", "save", 2, 1, 4), ("ssc", "save", 2, 1, 4)], [("sm", "save", 3, 2, 5), ("ssc", "save", 3, 1, 5)]),
     "C16": ([("sm", "tossc", 2, 1, 4)], [("sm", "tossc", 3, 1, 5)]),
     "C17": ([("ssc", "tosm", 2, 1, 3)], [("ssc", "tosm", 2, 1, 5)]),
+    "C13": ([("sm", "timing", 2, 1, 4), ("ssc", "timing", 2, 1, 4)], [("sm", "timing", 3, 1, 5), ("ssc", "timing", 3, 1, 5)]),
+    "C15": ([("ssc", "timing", 3, 1, 4)], [("ssc", "timing", 3, 1, 5)]),
     "C07": ([("sm", "edit", 1, 1, 3), ("ssc", "edit", 1, 1, 3)], [("sm", "edit", 2, 2, 4), ("ssc", "edit", 2, 1, 4)]),
     "C09": ([("sm", "edit", 1, 1, 3), ("ssc", "edit", 1, 1, 3)], [("sm", "edit", 2, 2, 4), ("ssc", "edit", 2, 1, 4)]),
-    "C14": ([("sm", "edit", 2, 1, 3), ("ssc", "edit", 2, 0, 3)], [("sm", "edit", 3, 1, 4), ("ssc", "edit", 3, 0, 4)]),
+    "C14": ([("sm", "edit", 2, 1, 3), ("ssc", "edit", 2, 1, 3)], [("sm", "edit", 3, 1, 4), ("ssc", "edit", 3, 1, 4)]),
 }
 
 
